@@ -133,6 +133,8 @@ def check_case(case, res):
     reset_frame_state()
     d, n = build(case)
     before, cent_before = snapshot(n), centres(n)
+    if all(c is not None for c in cent_before):
+        _ = n.wire_length          # a caller may well look at the wire length before relocating
     try:
         if case['algo'] == 'layout':
             out, _ = fruchterman_reingold_layout(d, case['kappa'], max_iter=case['max_iter'])
@@ -149,6 +151,15 @@ def check_case(case, res):
         return
     check_invariants(case, res, attrs, before, cent_before, out, nout, W, H)
     got = centres(nout)
+    # the returned netlist is consistent with itself: its wire length is the wire length of the new centres
+    if all(c is not None for c in got):
+        wl_own = own_cost(nout, 0) * 2
+        try:
+            wl = nout.wire_length
+            if abs(wl - wl_own) > 1e-9 * max(1.0, wl_own):
+                res.violation('wire-length-stale', case, attrs, wl_own, wl)
+        except Exception as e:  # noqa
+            res.violation('wire-length-stale', case, attrs, wl_own, f'{type(e).__name__}: {e}')
     # ---- determinism: an identically built input gives bit-identical centres
     reset_frame_state()
     d2, n2 = build(case)
